@@ -106,3 +106,28 @@ Proof. exact Gen_substdio.safe_substdio_put. Qed.
 Lemma tie_safe_substdio_bput : forall b x p fd script n out fuel data, Gen_substdio.Rep b x p script n out -> Gen_substdio.good b data -> Gen_substdio.enough fuel b script data ->
   option_map (fun r => K_substdio_bput.v__oob (snd r)) (K_substdio_bput.run fuel x (Z.of_nat (Substdio.o_cap b)) p fd (zs data) 0 (Z.of_nat (length data)) script out n) = Some 0.
 Proof. exact Gen_substdio.safe_substdio_bput. Qed.
+(* the input side: the generated substdi.c simulates Mem/Substdio.v (Gen_substdi.RepI: the s->p available bytes sit at offset s->n
+   of the buffer, the oracle has answered what the model's script says, the source is consumed up to v_rd__pos): substdio_feed and
+   substdio_get return what i_feed / i_get return - the same bytes in the caller's buffer - and end in a state that represents the
+   model's next state, for every script of short reads, EINTR, errors and end of file; the checked substdio_get never leaves the
+   buffer, the destination or the source.  i_feed_ok / i_get_ok / getlns_all_concat of Mem/SubstdioProofs.v are thereby theorems about
+   the translation of today's code *)
+From NQ Require Tie.Gen_substdi.
+Lemma tie_generated_substdio_feed : forall b x p n fd script k src pos fuel, Gen_substdi.RepI b x p n script k src pos -> Gen_substdi.goodI b src 0 -> Gen_substdi.enoughI fuel b script 0 ->
+  exists v st, C_substdio_feed.run fuel x p n fd script src k pos = Some (v, st) /\
+    v = (match fst (Substdio.i_feed b) with Substdio.FdHave m => Z.of_nat m | Substdio.FdEof => 0 | Substdio.FdErr => -1 end) /\
+    Gen_substdi.RepI (snd (Substdio.i_feed b)) (C_substdio_feed.a_s__x st) (C_substdio_feed.v_s__p st) (C_substdio_feed.v_s__n st) script (C_substdio_feed.v_rd__n st) src (C_substdio_feed.v_rd__pos st).
+Proof. exact Gen_substdi.gen_substdio_feed_sim. Qed.
+Lemma tie_generated_substdio_get : forall b x p n fd script k src pos fuel (dst : list Z) (len : nat),
+  Gen_substdi.RepI b x p n script k src pos -> Gen_substdi.goodI b src len -> Gen_substdi.enoughI fuel b script len -> (len <= length dst)%nat ->
+  exists v st, C_substdio_get.run fuel x p n fd dst 0 (Z.of_nat len) script src k pos = Some (v, st) /\
+    match fst (Substdio.i_get b len) with
+    | None => v = -1
+    | Some d => v = Z.of_nat (length d) /\ firstn (length d) (C_substdio_get.a_buf st) = zs d
+    end /\
+    Gen_substdi.RepI (snd (Substdio.i_get b len)) (C_substdio_get.a_s__x st) (C_substdio_get.v_s__p st) (C_substdio_get.v_s__n st) script (C_substdio_get.v_rd__n st) src (C_substdio_get.v_rd__pos st).
+Proof. exact Gen_substdi.gen_substdio_get_sim. Qed.
+Lemma tie_safe_substdio_get : forall b x p n fd script k src pos fuel (dst : list Z) (len : nat),
+  Gen_substdi.RepI b x p n script k src pos -> Gen_substdi.goodI b src len -> Gen_substdi.enoughI fuel b script len -> (len <= length dst)%nat ->
+  option_map (fun r => K_substdio_get.v__oob (snd r)) (K_substdio_get.run fuel x p n fd dst 0 (Z.of_nat len) script src k pos) = Some 0.
+Proof. exact Gen_substdi.safe_substdio_get. Qed.
